@@ -103,7 +103,7 @@ class IterTable:
     def _tree(self, get: dict):
         """index -> variant table of any shape the normaliser understands (T.int_table_tree)."""
         nparams = len(get["body"]["params"])
-        rows, others = T.int_table_tree(get, nparams - 1, T.group_fns(self.g), lo=0)
+        rows, others = T.int_table_tree(get, nparams - 1, T.group_fns(self.g, self.info), lo=0)
         for k, v in rows:
             co = H.call_of(v)
             if co and co[0].get("def") == T.SOME and len(co[1]) == 1 and H.ctor_of(co[1][0]) is not None:
@@ -253,6 +253,15 @@ def C04(infos: List[EnumInfo], ctx: dict):
             if f:
                 _s, t = H.tail_of_body(f["body"]["tree"])
                 c = H.ctor_of(t)
+                if c is None or _s:
+                    # through a private constructor helper, a `let`, ..: normalise (straight-line code)
+                    try:
+                        import symeval as SE
+                        tr_ = SE.Builder(f, {}, T.group_fns(g, info)).tree()
+                        if isinstance(tr_, SE.Leaf) and not tr_.diverge:
+                            c = H.ctor_of(tr_.value)
+                    except Unrecognised:
+                        pass
                 if c and c.adt == it.iter_def:
                     zeros = [nm for nm, e in c.payload if H.lit_value(e, "int") == 0]
                     usize_fields = [fl["name"] for fl in it.struct["fields"] if fl["ty"]["s"] == "usize"]
@@ -414,7 +423,7 @@ class ReprTable:
                 pass
         pty = f["sig"]["inputs"][0]["s"] if f["sig"]["inputs"] else "usize"
         lo, hi = int_bounds(pty)
-        rows, others = T.int_table_tree(f, 0, T.group_fns(g), extra, lo, hi)
+        rows, others = T.int_table_tree(f, 0, T.group_fns(g, info), extra, lo, hi)
         is_none = lambda v: isinstance(H.strip(v), dict) and H.strip(v).get("k") == "path" and H.strip(v).get("def") == T.NONE
         for k, v in rows + others:
             if is_none(v):
@@ -681,7 +690,7 @@ def C09(infos: List[EnumInfo], ctx: dict):
                 out.append(Violation("C09", "From<E> and From<&E> are generated", "C09:conv-missing:%s" % label, "%s not generated" % label, where(info, D)))
                 continue
             try:
-                vm = T.variant_match(fn_of(imp, "from"), 0, fns=T.group_fns(g))
+                vm = T.variant_match(fn_of(imp, "from"), 0, fns=T.group_fns(g, info))
             except Unrecognised as e:
                 out.append(unrec("C09", info, D, e))
                 continue
@@ -724,7 +733,7 @@ def C09(infos: List[EnumInfo], ctx: dict):
             if not ok and f:
                 # any other shape (own match, helper, by-value From): every variant must map to the discriminant of the same name
                 try:
-                    vt = T.variant_match_tree(f, 0, T.group_fns(g))
+                    vt = T.variant_match_tree(f, 0, T.group_fns(g, info))
                     mapped = {}
                     for vp_, body_, _n in vt.arms:
                         c_ = H.ctor_of(body_)
@@ -838,7 +847,7 @@ def C10(infos: List[EnumInfo], ctx: dict):
                 if f is None:
                     out.append(Violation("C10", "Index and IndexMut are generated", "C10:missing:%s" % name, "%s not generated" % name, where(info, D)))
                     continue
-                vm = T.variant_match(f, 1, fns=T.group_fns(g))
+                vm = T.variant_match(f, 1, fns=T.group_fns(g, info))
                 if not vm.scrut_ok:
                     out.append(Violation("C10", "indexing matches on the key", "C10:scrutinee:%s" % name, "%s does not match on its key parameter" % name, where(info, D)))
                 local: Dict[str, str] = {}
@@ -1127,6 +1136,9 @@ def predicate_truth(f: dict, variants: List[str], fns) -> Dict[str, bool]:
     out = {}
     for w in variants + [""]:
         leaf = SE.run(tree, {"variant": w or None})
+        if not w and leaf.diverge == "no arm matches":
+            out[w] = False          # an exhaustive match over the named variants: there is no other variant
+            continue
         if leaf.diverge:
             raise Unrecognised("predicate does not return for %s" % w)
         val = H.lit_value(leaf.value, "bool")
@@ -1147,6 +1159,8 @@ def try_as_tree(f: dict, v, variants: List[str], fns):
     verdict = None
     for w in variants + [""]:
         leaf = SE.run(tree, {"variant": w or None})
+        if not w and leaf.diverge == "no arm matches":
+            continue
         if leaf.diverge:
             raise Unrecognised("try_as does not return for %s" % w)
         if is_none(leaf.value):
@@ -1234,7 +1248,7 @@ def C13(infos: List[EnumInfo], ctx: dict):
                 if not ok:
                     # any other shape: decide the predicate on every variant through the decision-tree normaliser
                     try:
-                        truth = predicate_truth(f, [x.name for x in es.variants], T.group_fns(gi))
+                        truth = predicate_truth(f, [x.name for x in es.variants], T.group_fns(gi, info))
                         yes = sorted(w for w, b_ in truth.items() if b_)
                         if yes == [v.name]:
                             ok = True
@@ -1321,7 +1335,7 @@ def C13(infos: List[EnumInfo], ctx: dict):
                         pass
                     if not ok and not wrong_variant:
                         try:
-                            r_ = try_as_tree(f, v, [x.name for x in es.variants], T.group_fns(gt))
+                            r_ = try_as_tree(f, v, [x.name for x in es.variants], T.group_fns(gt, info))
                             if r_ == "ok":
                                 ok = True
                             elif r_[0] == "wrong":
@@ -1545,7 +1559,7 @@ def C15(infos: List[EnumInfo], ctx: dict):
                 except Unrecognised as e1:
                     try:
                         keys = sorted(set(k for v in es.variants for t2 in ("str", "int", "bool") for k in es.props_of(v, t2)))
-                        tables, irregular = prop_tables_tree(f, fn, ty, [v.name for v in es.variants], keys, T.group_fns(g))
+                        tables, irregular = prop_tables_tree(f, fn, ty, [v.name for v in es.variants], keys, T.group_fns(g, info))
                     except Unrecognised as e2:
                         raise Unrecognised("%s [decision-tree normaliser: %s]" % (e1, e2), getattr(e1, "node", None))
                     for vn, sx, what in irregular:
